@@ -93,6 +93,26 @@ def r19_1(ctx):
                         ctx.violation(f"_watchdog_feed:{bad.split(':')[0][:40]}", f"{key}: {bad}", func=f, trace=p.trace(30), construct=key)
                     else:
                         ctx.ok(1, key)
+    # the free-buffer read that follows the keep-alive is *answered* but refused (a status other than success; firmware that does not
+    # know the value): the NCP is alive, so this is not a failed keep-alive - the feed succeeds and the count is cleared.  The real
+    # EZSP facade is attached, so helpers the read goes through are followed.
+    ezst = repo.cls("bellows.types.named", "EzspStatus").members()
+    read = Outcomes(OK((ezst["SUCCESS"], b"\x07\x00")), OK((ezst["ERROR_INVALID_ID"], b"")))
+    px2 = PX(repo, models=[(k, Outcomes(OK({}))) for k in KEEPALIVE_CALLS] + [("self._ezsp.getValue", read), ("self.getValue", read)],
+             inline=lambda g, aw: g.cls is not None and (g.cls.name in ("ControllerApplication", "EZSP") and g.name not in ("_command", "__getattr__") or g.name == "from_ember_status"))
+    for n in (0, MAX):
+        def setup2():
+            ez = self_obj(repo.cls("bellows.ezsp", "EZSP"), {"_ezsp_version": 8}, tag="self._ezsp")
+            return self_obj(cls, {"_ezsp": ez, "_watchdog_failures": n, "_watchdog_feed_counter": 1}), {}
+
+        for p in px2.explore(f, setup2):
+            ctx.paths += 1
+            rd = [e for e in p.events if e.kind == "await" and e.what in ("self._ezsp.getValue", "self.getValue")]
+            answer = "refused" if rd and isinstance(rd[0].extra, tuple) and getattr(rd[0].extra[0], "name", "") != "SUCCESS" else "accepted"
+            cnt = p.store["self"].get("_watchdog_failures")
+            ctx.require(p.terminal == "return" and cnt == 0, f"_watchdog_feed:free-buffer-read-{answer}",
+                        f"v8, count {n}: keep-alive answered, free-buffer read {answer} by the NCP: the feed {p.terminal}s {p.value if p.terminal == 'raise' else ''} with count "
+                        f"{cnt!r} (an answered read is not a failed keep-alive: the feed must return with count 0)", func=f, trace=p.trace(20))
     ctx.sample({"MAX_WATCHDOG_FAILURES": MAX, "PERIOD": PERIOD})
 
 
